@@ -253,9 +253,14 @@ def _run_splice(case):
         if got and not any(sp[o:o + len(got)] == got for o in range(0, m - len(got) + 1)):
             probs.append("the audio under the new interval is not the inserted segment")
         limit = min(ns, start) - (0.002 + 2 * one if align else 0)
+        tol = (0.002 + 2 * one) if align else 0.0
         for nm in ("words", "pts"):
-            old = before[nm]
-            cur = [e for e in atg.getTier(nm).entries if e[-1] != "NEW"]
+            # entries inside the replaced region are erased by design: no claim about them
+            def _in_region(e):
+                return stop is not None and e[-2] >= start - tol and e[0] <= stop + tol
+            old = [e for e in before[nm] if not _in_region(e)]
+            gone = [e[-1] for e in before[nm] if _in_region(e)]
+            cur = [e for e in atg.getTier(nm).entries if e[-1] != "NEW" and e[-1] not in gone]
             if [e[-1] for e in cur] != [e[-1] for e in old]:
                 probs.append("tier %s: labels %r became %r" % (nm, [e[-1] for e in old], [e[-1] for e in cur]))
                 continue
